@@ -196,6 +196,35 @@ def l1_operation_dags(ctx: Ctx):
     ctx.note(f'{sites} call(s) of fast_2sum inside the library')
 
 
+def l5_primitive_operands(ctx: Ctx):
+    """Inside a program a literal no context has rounded is an exact rational (`ldexp(x, 3)`: the 3), while the library's
+    primitives -- split, modf, frexp, and through `isinteger` ldexp -- read their operands as `Float` (`x.isnan`).  The call
+    boundary of a primitive therefore hands a dyadic rational over as the Float of the same value.  `Primitive.__call__` is
+    evaluated, from its source, on each kind of operand."""
+    from fractions import Fraction
+
+    from ..minipy import Interp, Obj
+    PRIM = 'fpy2/primitive.py'
+    meths = {n: f for n, (_, _, f) in ctx.repo.methods(PRIM, 'Primitive', inherited=False).items()}
+    fn = meths.get('__call__')
+    if fn is None:
+        raise ShapeError('Primitive.__call__ not found')
+    reads_float = [name for name in ('split', 'modf', 'frexp') if any(isinstance(x, ast.Attribute) and x.attr in ('isnan', 'isinf', 'is_zero') for x in ast.walk(ctx.fn(CORE, name)))]
+    if not reads_float:
+        raise ShapeError('the library primitives no longer read Float attributes of their operands: re-derive the premise')
+    fl = Obj('Float', label='a Float')
+    for what, arg, want in (('the literal 3', Fraction(3), 'Float'), ('the literal 2.5', Fraction(5, 2), 'Float'), ('the rational 1/3', Fraction(1, 3), 'Fraction'), ('a Float', fl, 'same'), ('a list', [fl], 'same')):
+        got: list = []
+        me = Obj('Primitive', has_ctx_kwd=True, func=lambda *a, **k: got.extend(a))
+        it = Interp({}, meths, self_obj=me, globals_={'Fraction': Fraction, 'FP64': 'FP64'}, is_a=lambda k, c: k == c,
+                    overrides={'self.func': lambda *a, **k: got.extend(a), 'to_value': lambda v: v, 'unwrap_foreign': lambda v: v, 'Float.from_rational': lambda q: Obj('Float', value=q), 'is_dyadic': lambda q: q.denominator & (q.denominator - 1) == 0})
+        it.call_function(fn, [arg], {'ctx': 'CTX'}, bound_self=True)
+        g = got[0] if got else None
+        ok = (isinstance(g, Obj) and g.kind == 'Float' and g.fields.get('value') == arg) if want == 'Float' else (g is arg or g == arg)
+        ctx.check(len(got) == 1 and ok, PRIM, fn, 'Primitive.__call__', f'{what} reaches the primitive as ' + ('the Float of the same value' if want == 'Float' else 'it is'),
+                  f'reaches it as {g!r}: `core.ldexp(x, 3)` written in a program raises AttributeError: \'Fraction\' object has no attribute \'isnan\' (from Python the same call works)')
+
+
 def l2_exact_parts(ctx: Ctx):
     repo = ctx.repo
     funcs = {name: fn for name, fn, kind in fpy_functions(repo, CORE)}
@@ -390,6 +419,7 @@ RULES = [
     Rule('C20.P2', 'the exact rounding split / modf / frexp return through refuses only when digits would be lost (= C01.P3, RealFloat._round_at)', lambda ctx: __import__('sa.props.c01', fromlist=['p3_inexact']).p3_inexact(ctx), 12, 'P'),
     Rule('C20.L4', 'the exact engine answers add / sub / mul / fma / neg for every operand (what the ideal variants evaluate under REAL)', l4_exact_engine_answers, 5, 'L'),
     Rule('C20.P1', 'split / modf / frexp return only exactly rounded parts', p1_exact_returns, 20, 'P'),
+    Rule('C20.L5', 'a primitive is handed a dyadic rational (an unrounded literal) as the Float of the same value', l5_primitive_operands, 5, 'L'),
     # "rounded once": the exact product / sum the ideal variants and ldexp hand to the context is rounded through the
     # round-to-odd wrapper, for a precision as for a digit position (fixed-point contexts)
     Rule('C20.F1', 'the one rounding of an exact result keeps the digits it needs, for a precision and for a digit position (= C02.F1, mpfr_call)',
@@ -408,6 +438,8 @@ MUTANTS = [
            "                case Float(), Float():\n                    xr, yr = x.as_real(), y.as_real()\n                    if xr.is_nonzero() and yr.is_nonzero() and abs(xr.e - yr.e) > 65536:\n                        return None\n                    return Float(x=xr + yr, ctx=REAL)", 'C20.L4',
            'seeded change C20d: ideal_2sum(2**100000, 2**-100000) under FP256 raises'),
     Mutant('exact-product-declines-fractions', 'fpy2/number/engine/real.py', "    def mul(self, x: EngineArg, y: EngineArg, ctx: Context) -> EngineRes:\n", "    def mul(self, x: EngineArg, y: EngineArg, ctx: Context) -> EngineRes:\n        if isinstance(x, Fraction) and isinstance(y, Fraction):\n            return None\n", 'C20.L4'),
+    Mutant('primitive-handed-the-rational-of-a-literal', 'fpy2/primitive.py', "            Float.from_rational(arg) if isinstance(arg, Fraction) and is_dyadic(arg) else arg\n", "            arg\n", 'C20.L5',
+           'finding F140 before its repair: core.ldexp(x, 3) written in a program raises AttributeError'),
     Mutant('frexp-normalizes-under-the-operand-context', CORE, "        m = ctx.round(fp.RealFloat(s=x.s, e=0, c=x.c), exact=True)", "        x = x.normalize()\n        m = ctx.round(fp.RealFloat(s=x.s, e=0, c=x.c), exact=True)", 'C20.P1',
            'finding F108 before its repair: frexp(Float.from_float(1.25)) raises'),
     Mutant('frexp-normalizes-to-a-stated-precision', CORE, "        m = ctx.round(fp.RealFloat(s=x.s, e=0, c=x.c), exact=True)", "        x = x.normalize(x.p, None)\n        m = ctx.round(fp.RealFloat(s=x.s, e=0, c=x.c), exact=True)", 'C20.P1',
